@@ -11,12 +11,12 @@ open RE
 
 instance : BEq RE := ⟨RE.beq⟩
 
-/-- the distinct class bitmaps of a regex -/
+/-- the distinct class bitmaps of a regex that its derivative looks at -/
 def atomsOf : RE → List Nat → List Nat
   | emp, acc => acc
   | eps, acc => acc
   | cls bm, acc => if acc.contains bm then acc else bm :: acc
-  | cat a b, acc => atomsOf b (atomsOf a acc)
+  | cat a b, acc => if nullable a then atomsOf b (atomsOf a acc) else atomsOf a acc
   | alt a b, acc => atomsOf b (atomsOf a acc)
   | RE.and a b, acc => atomsOf b (atomsOf a acc)
   | RE.not a, acc => atomsOf a acc
@@ -152,11 +152,18 @@ def Cert.toLean (c : Cert) : String := Id.run do
     | .rep a m n => s!"r {a} {m} {n}"
   let nodes := ";".intercalate (pool.keys.toList.map node)
   let rts := " ".intercalate (roots.toList.map toString)
-  let rows := ";".intercalate (c.tbl.toList.map (fun r =>
-    " ".intercalate (r.toList.map (fun (c, bm, j) => s!"{c} {bm} {j}"))))
+  let mut clsIdx : Std.HashMap Nat Nat := {}
+  let mut clsList : Array Nat := #[]
+  for r in c.tbl do
+    for (_, bm, _) in r do
+      if !clsIdx.contains bm then
+        clsIdx := clsIdx.insert bm clsList.size
+        clsList := clsList.push bm
+  let rows := " ".intercalate (clsList.toList.map toString) ++ "|" ++ ";".intercalate (c.tbl.toList.map (fun r =>
+    " ".intercalate (r.toList.map (fun (c, bm, j) => s!"{c} {clsIdx[bm]!} {j}"))))
   let mut out := ""
-  out := out ++ s!"def states : List (List RE) := re_dag% \"{nodes}|{rts}\"\n"
-  out := out ++ s!"def tbl : List (List (List Nat)) := nat_rows% \"{rows}\"\n"
+  out := out ++ s!"noncomputable def states : List (List RE) := re_dag% \"{nodes}|{rts}\"\n"
+  out := out ++ s!"noncomputable def tbl : List (List (List Nat)) := nat_rows% \"{rows}\"\n"
   return out
 
 def Word.toLean (w : Word) : String := s!"[{", ".intercalate (w.map (fun b => toString b.toNat))}]"
